@@ -23,13 +23,26 @@ Signatures
   construct:<algo>:dense-mismatch / :exception:<Type> / :shape     -- any failure of construction
   construct:real-factors:complex-local-matrix:UFuncTypeError       -- D12 (dtype taken from factors)
   swap:<qr|graph>:dense-mismatch, swap:<..>:exception:<Type>, swap:failed-swap-corrupts-operator
-  swap:single-term-operator:AttributeError                         -- defect found by this search
-  swap:<qr|graph>:AssertionError@<function>                        -- defect found by this search:
+  Defects of the pinned tree found by this search (each reproduced by hand, see the final report):
+  swap:single-term-operator:AttributeError
+      the one-row fast path of construct_symbolic_mpo stores out_ops_list in another shape
+      ([OpTuple] instead of [[OpTuple]]); try_swap_site on such an operator raises.
+  swap:qr:AssertionError@check_swap_consistency, swap:qr:AssertionError@swap_site,
+  swap:graph:AssertionError@swap_site:qr-in-history
       swap_site relabels the outgoing bond operators through dummy symbols and assumes that the
       last decomposition step pairs every new bond operator with exactly one dummy; false for qr
-      (R not a permutation) and for a vertex cover that picks a row covering several dummies.
+      (R is not a permutation: the library's own consistency check then raises; with the check
+      disabled the result is wrong) and for a vertex cover that picks a row covering several
+      dummies (linearly dependent bond operators left behind by an earlier qr step).
+  swap:graph:AssertionError@check_swap_consistency:qr-in-history:spurious-result-correct-without-check
+      the self-check drops entries below 1e-10 * (max of that bond operator) while the table was
+      deduplicated with 1e-15 * (max of the table): rounding-noise entries of a qr-built operator
+      with factors spanning ~6 orders of magnitude make the two lists differ in length.  The same
+      swap repeated with the self-check switched off gives the right operator (that is how this
+      class is told apart from `...:result-wrong-without-check`, which is NOT a known class).
+  The suffix :graph-only-history (no qr anywhere) has never been seen on the pinned tree.
 Total cancellation (every term cancels, no offset) makes Mpo raise ValueError like its own
-"Terms all have factor 0": counted as rejected, not reported.
+"Terms all have factor 0": counted as rejected, not reported.  swap_jw=True is C17's business.
 """
 import contextlib
 import io
@@ -41,6 +54,7 @@ import numpy as np
 import lib_mpo as L
 from renormalizer.model import Model, Op, OpSum
 from renormalizer.mps import Mpo
+import renormalizer.mps.symbolic_mpo as sm
 from renormalizer.utils import Quantity
 
 ALGOS = ("qr", "Hopcroft-Karp", "Hungarian")
@@ -272,7 +286,17 @@ def exec_swaps(bs, terms, offset, qn_size, via, algo, swaps, mpo=None):
                 # qr anywhere in the object's history (construction or an earlier successful swap) leaves
                 # rounding-noise entries in the bond operators; keep that input class in the signature
                 hist = "" if cls == "qr" else (":qr-in-history" if uses_qr else ":graph-only-history")
-                events.append((f"swap:{cls}:AssertionError@{last_library_frame(e)}{hist}", idx, res))
+                fn = last_library_frame(e)
+                if cls == "graph" and fn == "check_swap_consistency":
+                    # Is the library's self-check right to object?  Repeat the same swap on the (unchanged)
+                    # object with the self-check switched off and judge the result with the dense oracle.
+                    verdict = retry_without_selfcheck(mpo, new, salgo, terms, offset, uses_qr)
+                    events.append((f"swap:graph:AssertionError@check_swap_consistency{hist}:{verdict}", idx, res))
+                    if verdict == "spurious-result-correct-without-check":
+                        cur = new
+                        continue
+                    return events, n_ok, worst
+                events.append((f"swap:{cls}:AssertionError@{fn}{hist}", idx, res))
             else:
                 events.append((f"swap:{cls}:exception:{type(e).__name__}", idx, res))
                 return events, n_ok, worst
@@ -306,6 +330,24 @@ def exec_swaps(bs, terms, offset, qn_size, via, algo, swaps, mpo=None):
         worst = max(worst, err / tol)
         n_ok += 1
     return events, n_ok, worst
+
+
+def retry_without_selfcheck(mpo, new, salgo, terms, offset, uses_qr):
+    orig = sm.check_swap_consistency
+    sm.check_swap_consistency = lambda *a, **k: None
+    try:
+        with contextlib.redirect_stdout(io.StringIO()):
+            mpo.try_swap_site(L.make_model(new), False, algo=salgo)
+        dref, scale = L.dense_reference(new, terms, offset)
+        d = np.asarray(mpo.todense())
+        tol = tol_for(uses_qr, len(terms), len(new), scale)
+        if d.shape == dref.shape and bool(np.max(np.abs(d - dref)) <= tol):
+            return "spurious-result-correct-without-check"
+        return "result-wrong-without-check"
+    except Exception as e:  # noqa: BLE001
+        return "result-wrong-without-check:" + type(e).__name__
+    finally:
+        sm.check_swap_consistency = orig
 
 
 def shrink_swap_case(bs, terms, offset, qn_size, via, algo, swaps, sig):
